@@ -13,3 +13,12 @@ P.trusted += G.P.trusted
 for t in G.P.tasks:
     if t.name.startswith("jerk."):
         P.tasks.append(Task(P, "jerk_matches_force." + t.name, t.fn, t.func, files=G.P.files, timeout=t.timeout, order=t.order, z3_ms=t.z3_ms, polyid_s=t.polyid_s))
+
+
+# the advertised order of a scheme also has to hold with safe_mode = 0 (steps left unsynchronised): the unsafe word of every SABA
+# corrector variant must be the safe word with the merged stages carrying the doubled weights (C09 word equivalence), otherwise
+# the eps^2 dt^2 term the corrector removes comes back
+from contracts import C09_sync_more as SM
+for t in SM.P.tasks:
+    if t.name.startswith("sabac."):
+        P.tasks.append(Task(P, "unsynchronised_word_has_the_same_order." + t.name, t.fn, t.func, files=t.files or SM.P.files, timeout=t.timeout))
